@@ -65,7 +65,8 @@ class Report:
             print('   note: %s' % n)
         for o, kf in known_hits:
             print('KNOWN-FINDING: property=%s %s [%s %s] %s' % (self.pid, kf.get('what', ''), o['rule'], o['key'], o['detail']))
-        outdir = os.path.join(VERIF, 'out', self.pid)
+        scratch_run = os.environ.get('BA_SCRATCH_RUN') == '1'     # tools/seedcheck.py, tools/mutate.py: a patched scratch copy, not /repo
+        outdir = os.path.join(VERIF, 'out', ('scratch-' if scratch_run else '') + self.pid)
         os.makedirs(outdir, exist_ok=True)
         for f in os.listdir(outdir):
             if f.startswith('violation-'):
@@ -120,8 +121,9 @@ class Report:
             'wall_s': round(time.time() - self.t0 + float(os.environ.get('BA_EXTRACT_S', '0') or 0), 2),
             'violations': len(viol),
         }
-        os.makedirs(os.path.join(VERIF, 'evidence'), exist_ok=True)
-        json.dump(ev, open(os.path.join(VERIF, 'evidence', '%s.json' % self.pid), 'w'), indent=1)
+        if not scratch_run:
+            os.makedirs(os.path.join(VERIF, 'evidence'), exist_ok=True)
+            json.dump(ev, open(os.path.join(VERIF, 'evidence', '%s.json' % self.pid), 'w'), indent=1)
         return 1 if viol else 0
 
 
